@@ -164,6 +164,12 @@ def oracleC08 (c : TCase) : Verdict :=
       | _ => s) ({ left := N } : C08St)
     (match st.fail with | some w => .fail w | none => .ok)
   | none =>
+    if c.metas.any (· == "meta nobody") then
+      -- a response that cannot have a body: no body state, nothing after the head is consumed
+      (match c.lines.find? (fun t => (t.kw == "proceed" && t.res.take 2 == ["state", "recvBody"]) ||
+                                      (t.kw == "bread" && (match t.res with | ["bytes", i, _] => i != "0" | _ => false))) with
+       | some t => .fail s!"a response that cannot have a body was given one (bytes of the next message would be consumed): {t.raw.take 100}"
+       | none => .ok) else
     if !isClose then .ok else
     let st := c.lines.foldl (fun (s : C08St) t =>
       if s.fail.isSome then s else
